@@ -136,14 +136,14 @@ def _filecheck_functions(ctx, want_steps):
         ctx.notes.append(f"acc-dedup.mlir not usable: {e!r}")
         return out
     for fn in fns:
-        out.append((text, fn, AC.Staged(text, fn, want_steps=want_steps)))
+        out.append((text, fn, AC.Staged(text, fn, want_steps=want_steps, trace=False)))
     return out
 
 
 # ---------------------------------------------------------------- L1
 def correspondence(ctx):
     dis = []
-    items = _programs(ctx, ctx.n(24, 1200), "L1", True)
+    items = _programs(ctx, ctx.n(14, 1200), "L1", True)
     steps = []
     for text, fn, ins, st in items:
         if st.error:
@@ -237,7 +237,7 @@ def _explain(st, ins, from_traced):
 
 
 def search(ctx, deep=False):
-    n = ctx.n(48, 2000) * (3 if deep else 1)
+    n = ctx.n(30, 2000) * (3 if deep else 1)
     items = []
     for path, fn, ins in PROBES:
         text = open(path).read()
